@@ -162,11 +162,15 @@ class PList:
 class PDict:
     """mutable dict with concrete (python) keys"""
 
-    __slots__ = ("items", "oid", "open_")
+    __slots__ = ("items", "oid", "open_", "sym_entries", "base")
 
     def __init__(self, items=None):
         self.items: Dict[Any, Any] = dict(items) if items else {}
         self.oid = next(PList._ids)
+        # entries stored under *symbolic* string keys, oldest first: (key term, string value);
+        # base: (has, val) uninterpreted functions standing for unknown earlier content (after a havoc)
+        self.sym_entries: List[Any] = []
+        self.base = None
 
     def __repr__(self):
         return f"PDict({self.items})"
